@@ -84,14 +84,23 @@ pub struct Verdict {
 }
 
 pub fn check_map(ctx: &CaseCtx, args: &Args) -> Verdict {
-    // expectation: from the types the compiled query records (public `variables` map) and `fits`
-    let declared: BTreeMap<String, Ty> = ctx
+    // expectation: "the type the query implies for that variable" is the harness's own derivation from
+    // the query AST (documented inference rules, intersection over all uses - independent of the
+    // engine); the compiled query's public `variables` map only supplies the variable *names* and is the
+    // fallback where the derivation is unavailable. (That the two agree is C11's business.)
+    let derived = ctx.analysis.variables();
+    let mut declared: BTreeMap<String, Ty> = ctx
         .compiled
         .ir_query
         .variables
         .iter()
         .map(|(k, t)| (k.to_string(), Ty::parse(&t.to_string()).expect("unparseable variable type")))
         .collect();
+    for (name, ty) in declared.iter_mut() {
+        if let Some(Some(t)) = derived.get(name) {
+            *ty = t.clone();
+        }
+    }
     let mut expected = Named::default();
     for (name, ty) in &declared {
         match args.get(name) {
